@@ -2,7 +2,7 @@
    The structure of ArrayView / SubFieldView / ScaledArrayView is Gen/GenViews.v (regenerated from laspy/point/dims.py on
    every run); masks are Gen/GenDims.v, the shift is the translation of packing.least_significant_bit_set.
    Scope (coordinator's decision, also ASSUMPTIONS of harness/props/c10.py): index forms int / slice / mask / index list /
-   (.., j) / (i, ..) / (i, j) / (rows, cols); scales are positive (the monotonicity hypothesis of C10_scaled_minmax);
+   (.., j) / (i, ..) / (i, j) / (rows, cols); scales of any sign (C10_scaled_minmax: the grid route of max/min is guarded by the sign test);
    ordering and equality comparisons of scaled views are defined on the stored grid and excluded by the property. *)
 From Coq Require Import String.
 From Coq Require Import ZArith List Bool.
@@ -194,31 +194,46 @@ Proof. exact chain_values. Qed.
 Print Assumptions C10_scaled_chain.
 
 (* the view's own max/min = numpy's on the materialised values, with or without an `initial=` argument (the archetype
-   of an argument expressed in scaled values): one element per point without argument needs the scaling to be monotone
-   (positive scale) and the order antisymmetric; everything else is computed on the materialised values *)
-Theorem C10_scaled_minmax : forall (S O F : Type) (ap : S -> O -> Z -> F) (fle : F -> F -> bool),
-  (forall s o x y, x <= y -> fle (ap s o x) (ap s o y) = true) ->
+   of an argument expressed in scaled values), for scales of ANY sign: one element per point without argument is answered
+   from the grid only for the scales the code's test `np.all(self.scale > 0)` (pos) accepts, and only those need the scaling
+   to be monotone; the order is antisymmetric; everything else is computed on the materialised values *)
+Theorem C10_scaled_minmax : forall (S O F : Type) (ap : S -> O -> Z -> F) (fle : F -> F -> bool) (pos : S -> bool),
+  (forall s o x y, pos s = true -> x <= y -> fle (ap s o x) (ap s o y) = true) ->
   (forall a b, fle a b = true -> fle b a = true -> a = b) ->
   forall r init (v : sview S O F), wf S O F v ->
-  view_reduce S O F ap fle r init v = np_reduce F fle r init (materialise S O F ap v).
+  view_reduce S O F ap fle pos r init v = np_reduce F fle r init (materialise S O F ap v).
 Proof. exact scaled_minmax. Qed.
 Print Assumptions C10_scaled_minmax.
 
 (* ... also after any sequence of index expressions *)
-Theorem C10_scaled_chain_minmax : forall (S O F : Type) (ap : S -> O -> Z -> F) (fle : F -> F -> bool),
-  (forall s o x y, x <= y -> fle (ap s o x) (ap s o y) = true) ->
+Theorem C10_scaled_chain_minmax : forall (S O F : Type) (ap : S -> O -> Z -> F) (fle : F -> F -> bool) (pos : S -> bool),
+  (forall s o x y, pos s = true -> x <= y -> fle (ap s o x) (ap s o y) = true) ->
   (forall a b, fle a b = true -> fle b a = true -> a = b) ->
   forall ixs r init (v : sview S O F), wf S O F v ->
-  match chain S O F ap ixs v with Some x => view_reduce S O F ap fle r init x | None => None end
+  match chain S O F ap ixs v with Some x => view_reduce S O F ap fle pos r init x | None => None end
   = match np_chain F ixs (materialise S O F ap v) with Some a => np_reduce F fle r init a | None => None end.
 Proof. exact chain_reduce. Qed.
 Print Assumptions C10_scaled_chain_minmax.
 
 (* the hypotheses of C10_scaled_minmax are satisfiable: x * s + o with s > 0 in exact arithmetic *)
 Theorem C10_scaled_minmax_instance : forall r init (v : sview positive Z Z), wf positive Z Z v ->
-  view_reduce positive Z Z ap_Z Z.leb r init v = np_reduce Z Z.leb r init (materialise positive Z Z ap_Z v).
+  view_reduce positive Z Z ap_Z Z.leb pos_all r init v = np_reduce Z Z.leb r init (materialise positive Z Z ap_Z v).
 Proof. exact scaled_minmax_Z. Qed.
 Print Assumptions C10_scaled_minmax_instance.
+
+(* ... and with scales of either sign or zero: x * s + o over Z, the code's test being 0 < s *)
+Theorem C10_scaled_minmax_any_sign : forall r init (v : sview Z Z Z), wf Z Z Z v ->
+  view_reduce Z Z Z ap_ZZ Z.leb pos_Z r init v = np_reduce Z Z.leb r init (materialise Z Z Z ap_ZZ v).
+Proof. exact scaled_minmax_any_sign. Qed.
+Print Assumptions C10_scaled_minmax_any_sign.
+
+(* a negative scale: the view answers numpy's 21 / -39; answered from the grid without the test it would be -39 for max *)
+Theorem C10_negative_scale_example :
+  view_reduce Z Z Z ap_ZZ Z.leb pos_Z RMax None (V1 [4; -3; 9] (-5) 6) = Some 21
+  /\ view_reduce Z Z Z ap_ZZ Z.leb pos_Z RMin None (V1 [4; -3; 9] (-5) 6) = Some (-39)
+  /\ view_reduce Z Z Z ap_ZZ Z.leb (fun _ => true) RMax None (V1 [4; -3; 9] (-5) 6) = Some (-39).
+Proof. exact negative_scale_example. Qed.
+Print Assumptions C10_negative_scale_example.
 
 Example C10_nonvacuous :
   In (0, "return_number"%string, "bit_fields"%string, 7) all_sub_fields
@@ -238,20 +253,20 @@ Example C10_nonvacuous :
        (view_index positive Z Z ap_Z (IxPair (ASel [1]%nat) (ASel [2; 0; 1]%nat)) (V2 [[1; 2; 3]; [4; 5; 6]; [7; 8; 9]] [1; 5; 20]%positive [10; -2; 100]))
      = Some (A2 3 [[220; 14; 23]])
   /\ view_index positive Z Z ap_Z (IxPair (AInt 0) (AInt 3)) (V2 [[1; 2; 3]] [1; 5; 20]%positive [10; -2; 100]) = None
-  /\ view_reduce positive Z Z ap_Z Z.leb RMax None (V2 [[1; 2; 3]; [4; 5; 6]] [1; 5; 20]%positive [10; -2; 100]) = Some 220
+  /\ view_reduce positive Z Z ap_Z Z.leb pos_all RMax None (V2 [[1; 2; 3]; [4; 5; 6]] [1; 5; 20]%positive [10; -2; 100]) = Some 220
   (* two elements stored with the SAME scale and different offsets: the largest stored integer (60) is in element 0,
      the largest value in element 1 - the extreme of the stored integers, scaled, is not the answer *)
-  /\ view_reduce positive Z Z ap_Z Z.leb RMax None (V2 [[10; 1]; [60; 6]] [2; 2]%positive [0; 1000]) = Some 1012
-  /\ view_reduce positive Z Z ap_Z Z.leb RMin None (V2 [[10; 1]; [60; 6]] [2; 2]%positive [1000; 0]) = Some 2
+  /\ view_reduce positive Z Z ap_Z Z.leb pos_all RMax None (V2 [[10; 1]; [60; 6]] [2; 2]%positive [0; 1000]) = Some 1012
+  /\ view_reduce positive Z Z ap_Z Z.leb pos_all RMin None (V2 [[10; 1]; [60; 6]] [2; 2]%positive [1000; 0]) = Some 2
   /\ match chain positive Z Z ap_Z [IxPair (ASel [1; 0]%nat) (ASel [1; 0]%nat)] (V2 [[10; 1]; [60; 6]] [2; 2]%positive [0; 1000]) with
-     | Some x => view_reduce positive Z Z ap_Z Z.leb RMax None x | None => None end = Some 1012
-  /\ view_reduce positive Z Z ap_Z Z.leb RMin None (V1 [4; -3; 9] 5%positive 1) = Some (-14)
-  /\ view_reduce positive Z Z ap_Z Z.leb RMax (Some 50) (V1 [4; -3; 9] 5%positive 1) = Some 50
+     | Some x => view_reduce positive Z Z ap_Z Z.leb pos_all RMax None x | None => None end = Some 1012
+  /\ view_reduce positive Z Z ap_Z Z.leb pos_all RMin None (V1 [4; -3; 9] 5%positive 1) = Some (-14)
+  /\ view_reduce positive Z Z ap_Z Z.leb pos_all RMax (Some 50) (V1 [4; -3; 9] 5%positive 1) = Some 50
   (* v[1, [2, 0]] is plain values; its max is a number *)
   /\ view_index positive Z Z ap_Z (IxPair (AInt 1) (ASel [2; 0]%nat)) (V2 [[1; 2; 3]; [4; 5; 6]] [1; 5; 20]%positive [10; -2; 100])
      = Some (VRow [220; 14])
   /\ match chain positive Z Z ap_Z [IxPair (AInt 1) (ASel [2; 0]%nat)] (V2 [[1; 2; 3]; [4; 5; 6]] [1; 5; 20]%positive [10; -2; 100]) with
-     | Some x => view_reduce positive Z Z ap_Z Z.leb RMax None x | None => None end = Some 220
+     | Some x => view_reduce positive Z Z ap_Z Z.leb pos_all RMax None x | None => None end = Some 220
   /\ option_map (materialise positive Z Z ap_Z)
        (chain positive Z Z ap_Z [IxRow (AInt 1); IxInt 2] (V2 [[1; 2; 3]; [4; 5; 6]] [1; 5; 20]%positive [10; -2; 100]))
      = Some (Sc 220)
